@@ -423,6 +423,24 @@ func main() {
 		addStr("canAdd", src(ca.Body))
 		anl := control.fn("Controller", "addReplicaNoLock")
 		addStr("addReplicaNoLockRechecks", fmt.Sprint(strings.HasPrefix(src(anl.Body.List[0]), "if ok, err := c.canAdd(address); !ok")))
+		// the widening of sub-block writes while a WO replica is attached (C07)
+		if wf := control.fn("Controller", "widenForWONoLock"); wf != nil {
+			addStr("widenForWO", src(wf.Body))
+		} else {
+			addStr("widenForWO", "absent")
+		}
+		{
+			var calls []string
+			ast.Inspect(control.fn("Controller", "WriteAt"), func(x ast.Node) bool {
+				if c, ok := x.(*ast.CallExpr); ok {
+					if s := src(c.Fun); s == "c.widenForWONoLock" || s == "c.backend.WriteAt" {
+						calls = append(calls, src(c))
+					}
+				}
+				return true
+			})
+			addStr("writeWidensForWO", strings.Join(calls, " ; "))
+		}
 		vr := rebuild.fn("Controller", "VerifyRebuildReplica")
 		var order []string
 		ast.Inspect(vr, func(x ast.Node) bool {
